@@ -243,8 +243,8 @@ Proof. unfold cond_ann. destruct il; [reflexivity|]. destruct c; [|reflexivity].
 Lemma ann_enums_cond il c a : ann_enums (cond_ann il c a) = ann_enums a.
 Proof. unfold cond_ann. destruct il; [reflexivity|]. destruct c; [|reflexivity]. destruct (is_opt a); reflexivity. Qed.
 
-Lemma field_pf_scope C S frs fuel' cn tn tv f pf ctx :
-  field_pf C S frs fuel' cn tn tv f = Ok (pf, ctx) ->
+Lemma field_pf_scope C S frs fuel' cn tn tv at_ f pf ctx :
+  field_pf C S frs fuel' cn tn tv at_ f = Ok (pf, ctx) ->
   incl (ann_classes (p_ann pf)) (map r_class (x_related ctx)) /\
   (forall e, In e (ann_enums (p_ann pf)) -> is_enum S e) /\
   ((forall t, schema_field_type S tn (fn_name f) = Ok t -> leaf_gtype S t = true) -> x_related ctx = []).
@@ -318,8 +318,8 @@ Section ScopeInv.
     (fn_sub f = None -> forall t, schema_field_type S tn (fn_name f) = Ok t -> leaf_gtype S t = true) /\
     (forall sub, fn_sub f = Some sub -> leaf_disc S frs sub).
 
-  Lemma fields_run_scope cn tn tv : forall fs pub pfl extra pub' sk,
-    fields_run rec C S frs fuel' cn tn tv fs pub pfl extra pub' sk ->
+  Lemma fields_run_scope cn tn tv at_ : forall fs pub pfl extra pub' sk,
+    fields_run rec C S frs fuel' cn tn tv at_ fs pub pfl extra pub' sk ->
     incl pub pub' /\
     (forall n, In n pub' -> In n pub \/ In n (map c_name extra)) /\
     (forall c, In c extra -> In (c_name c) pub') /\
@@ -331,7 +331,7 @@ Section ScopeInv.
     induction H as [pub | f fs pub pf ctx exc exp exs pfl extra pub' sk Hpf Hsub Hrun IH].
     - split4; [apply incl_refl | auto | intros ? [] | intros _; split; [intros ? [] | intros ? ? []]].
     - destruct IH as (I1 & I2 & I3 & I4).
-      destruct (field_pf_scope _ _ _ _ _ _ _ _ _ _ Hpf) as (P1 & _ & P3).
+      destruct (field_pf_scope _ _ _ _ _ _ _ _ _ _ _ Hpf) as (P1 & _ & P3).
       apply parse_subs_inv in Hsub. destruct Hsub as [(Hn & -> & -> & _) | (sub & Hs & Hr)].
       + simpl. split4; auto.
         intro Hall. destruct (I4 (fun f0 Hf0 => Hall f0 (or_intror Hf0))) as [J1 J2]. split; [exact J1|].
@@ -404,13 +404,13 @@ Proof.
   destruct H as [(_ & -> & _) | (_ & fields0 & mixins & pfl & extra & _ & Hr & kept & _ & ->)];
     [intros c pf e []|].
   assert (forall fs pub0 pfl0 extra0 pub1 sk0,
-    fields_run (parse_type_def fuel C S frs) C S frs fuel cn tn tv fs pub0 pfl0 extra0 pub1 sk0 ->
+    fields_run (parse_type_def fuel C S frs) C S frs fuel cn tn tv at_ fs pub0 pfl0 extra0 pub1 sk0 ->
     (forall pf e, In pf pfl0 -> In e (ann_enums (p_ann pf)) -> is_enum S e) /\
     (forall c pf e, In c extra0 -> In pf (c_fields c) -> In e (ann_enums (p_ann pf)) -> is_enum S e)) as G.
   { intros fs pub0 pfl0 extra0 pub1 sk0 R.
     induction R as [pub0 | f fs pub0 pf ctx exc exp exs pfl0 extra0 pub1 sk0 Hpf Hsub Hrun IHR].
     - split; [intros ? ? [] | intros ? ? ? []].
-    - destruct IHR as [J1 J2]. destruct (field_pf_scope _ _ _ _ _ _ _ _ _ _ Hpf) as (_ & P2 & _). split.
+    - destruct IHR as [J1 J2]. destruct (field_pf_scope _ _ _ _ _ _ _ _ _ _ _ Hpf) as (_ & P2 & _). split.
       + intros pf0 e [<-|Hin] He; [apply P2, He | eapply J1; eauto].
       + intros c pf0 e Hc. apply in_app_or in Hc as [Hc|Hc]; [| eapply J2; eauto].
         apply parse_subs_inv in Hsub. destruct Hsub as [(_ & -> & _) | (sub & _ & Hs)]; [destruct Hc|].
@@ -481,7 +481,7 @@ Proof.
   destruct H as [(_ & -> & _) | (_ & fields0 & mixins & pfl & extra & Hres & Hr & kept & Hk & ->)];
     [intros c []|].
   assert (forall fs pub0 pfl0 extra0 pub1 sk0,
-    fields_run (parse_type_def fuel C S frs) C S frs fuel cn tn tv fs pub0 pfl0 extra0 pub1 sk0 ->
+    fields_run (parse_type_def fuel C S frs) C S frs fuel cn tn tv at_ fs pub0 pfl0 extra0 pub1 sk0 ->
     forall c, In c extra0 -> bases_ok S frs c) as G.
   { intros fs pub0 pfl0 extra0 pub1 sk0 R.
     induction R as [pub0 | f fs pub0 pf ctx exc exp exs pfl0 extra0 pub1 sk0 Hpf Hsub Hrun IHR]; [intros c []|].
